@@ -85,7 +85,7 @@ func c20Ops() []c20Op {
 				return "ERR " + err.Error()
 			}
 			c := pj.Clone(nil)
-			it, nerr := navigate(c, vpath{0, 0}, 3)
+			it, nerr := navigate(c, vpath{0, 0}, 1)
 			if nerr == nil {
 				if it.Type() == simdjson.TypeArray || it.Type() == simdjson.TypeObject {
 					it.SetNull()
